@@ -432,6 +432,8 @@ type VsSpec struct {
 	Check  func(x *vs.Exec) *Viol // nil = fine
 	P, D   int                    // bounds to reach (iterated from 0)
 	Delay  bool                   // P bounds all deviations from the default scheduler, not only preemptions
+	Prune  bool                   // state-key pruning (sound when goroutines communicate only through scheduler-visible operations)
+	PruneP int                    // bound to reach when pruning has been validated for the scenario (0 = same as P)
 	Sample func() any             // describes the last execution (for evidence)
 	MaxExecs int
 }
@@ -508,15 +510,30 @@ func trimStack(s string) string {
 	return strings.Join(out, "\n")
 }
 
+// pruneBonus > 0 (thorough tier): scenarios are explored with state-key pruning, if it
+// validates on the scenario, to a bound that much higher than the unpruned one.
+var pruneBonus int
+
 func runVs(c *RunCtx, sp *VsSpec) *Result {
 	res := &Result{Exhaustive: true, Bounds: map[string]any{}}
+	if c.Thorough() && pruneBonus > 0 && !sp.Prune {
+		cp := *sp
+		cp.Prune, cp.PruneP = true, sp.P+pruneBonus
+		sp = &cp
+	}
 	if err := vs.SelfTest(sp.Body, 0); err != nil {
 		res.Exhaustive = false
 		res.CapHit = "determinism self-test failed: " + err.Error()
 		return res
 	}
 	knownSeen := map[string]bool{}
+	findHash := os.Getenv("VERIF_FIND_HASH")
 	chk := func(x *vs.Exec) string {
+		if findHash != "" && fmt.Sprintf("%x", x.Hash()) == findHash {
+			f, _ := os.OpenFile("/dev/shm/found_hash.txt", os.O_APPEND|os.O_CREATE|os.O_WRONLY, 0o644)
+			fmt.Fprintf(f, "%v\n", x.Picks())
+			f.Close()
+		}
 		v := sp.Check(x)
 		if v == nil {
 			return ""
@@ -534,10 +551,45 @@ func runVs(c *RunCtx, sp *VsSpec) *Result {
 	}
 	completedP := -1
 	total := &vs.Stats{Exhaustive: true}
-	for p := 0; p <= sp.P; p++ {
-		b := vs.Bounds{P: p, D: sp.D, Deadline: c.Deadline, MaxExecs: sp.MaxExecs, Delay: sp.Delay}
+	prune := sp.Prune || os.Getenv("VERIF_PRUNE") == "1"
+	if os.Getenv("VERIF_PRUNE") == "0" {
+		prune = false
+	}
+	maxP := sp.P
+	if prune && sp.Prune {
+		// State-key pruning assumes that goroutines influence each other only through
+		// operations the scheduler sees. Validate it on this scenario first: the pruned
+		// and the unpruned search must produce the same set of behaviours at a small
+		// bound; otherwise pruning is not used.
+		vb := 1
+		if sp.P < vb {
+			vb = sp.P
+		}
+		plain, v1 := vs.Explore(sp.Body, chk, vs.Bounds{P: vb, D: sp.D, Deadline: c.Deadline, Delay: sp.Delay})
+		pruned, v2 := vs.Explore(sp.Body, chk, vs.Bounds{P: vb, D: sp.D, Deadline: c.Deadline, Delay: sp.Delay, Prune: true})
+		same := v1 == nil && v2 == nil && plain.Exhaustive && pruned.Exhaustive && len(plain.Distinct) == len(pruned.Distinct)
+		if same {
+			for h := range plain.Distinct {
+				if !pruned.Distinct[h] {
+					same = false
+					break
+				}
+			}
+		}
+		if same {
+			res.addExtra("scenarios_with_validated_state_pruning", 1)
+			if sp.PruneP > maxP {
+				maxP = sp.PruneP
+			}
+		} else {
+			prune = false
+			res.addExtra("scenarios_where_state_pruning_was_rejected", 1)
+		}
+	}
+	for p := 0; p <= maxP; p++ {
+		b := vs.Bounds{P: p, D: sp.D, Deadline: c.Deadline, MaxExecs: sp.MaxExecs, Delay: sp.Delay, Prune: prune}
 		st, v := vs.Explore(sp.Body, chk, b)
-		if p == sp.P || v != nil || !st.Exhaustive {
+		if p == maxP || v != nil || !st.Exhaustive {
 			total = st
 		}
 		if v != nil {
@@ -573,7 +625,20 @@ func runVs(c *RunCtx, sp *VsSpec) *Result {
 	res.States = total.Nodes + 1
 	res.Transitions = total.Transitions
 	res.addExtra("divergences", total.Divergences)
+	res.addExtra("choice_points_pruned_by_state_key", total.Pruned)
+	if os.Getenv("VERIF_DUMP_DISTINCT") != "" {
+		var hs []string
+		for h := range total.Distinct {
+			hs = append(hs, fmt.Sprintf("%x", h))
+		}
+		sort.Strings(hs)
+		os.WriteFile(os.Getenv("VERIF_DUMP_DISTINCT")+"."+fmt.Sprint(os.Getpid()), []byte(strings.Join(hs, "\n")), 0o644)
+		sum := sha1.Sum([]byte(strings.Join(hs, ",")))
+		res.addExtra(fmt.Sprintf("distinct_set_%x", sum[:6]), 1)
+	}
 	res.addExtra("horizon_hits", total.HorizonHits)
+	res.Bounds["state_key_pruning"] = prune
+	res.addExtra(fmt.Sprintf("scenarios_completed_at_bound_%d", completedP), 1)
 	if sp.Delay {
 		res.Bounds["scheduler_deviations"] = completedP
 	} else {
